@@ -16,6 +16,11 @@ from socketio import packet as sio_packet         # noqa: E402
 from . import refcodec                            # noqa: E402
 
 
+class TaskStop(BaseException):
+    """Raised by harness seams to end a background task that would loop
+    forever (e.g. a periodic reporter); not an error."""
+
+
 class DeferredTask:
     """Stand-in for a background thread in sequential worlds: recorded, run
     later by the world in FIFO order (never inline)."""
@@ -35,6 +40,8 @@ class DeferredTask:
         self.started = True
         try:
             self.target(*self.args, **self.kwargs)
+        except TaskStop:
+            pass
         except Exception as e:   # a real thread would die with a traceback
             self.exc = e
             self.world.task_errors.append(repr(e))
